@@ -713,13 +713,15 @@ impl Check {
             // deterministic replay, twice, in fresh processes (process-level failures are re-run too)
             let mut seen = vec![];
             for _ in 0..2 {
-                let out = Command::new(&exe)
-                    .args(["--tier", self.tier.as_str(), "--only", &first.space, &first.arg, &first.index.to_string()])
-                    .stderr(Stdio::null())
-                    .output();
+                let out = output_with_timeout(
+                    Command::new(&exe).args(["--tier", self.tier.as_str(), "--only", &first.space, &first.arg, &first.index.to_string()]),
+                    if sym.starts_with("hang:") { (self.builder)(&first.space, &first.arg, self.tier).case_timeout() + 5 } else { 600 },
+                );
                 let syms: Vec<String> = match out {
-                    Ok(o) if o.status.success() => {
-                        let s = String::from_utf8_lossy(&o.stdout);
+                    Err(e) if e == "timeout" => vec!["<timeout>".into()],
+                    Err(_) => vec!["<spawn failed>".into()],
+                    Ok((true, stdout)) => {
+                        let s = stdout;
                         let v: Value = s.lines().last().and_then(|l| serde_json::from_str(l).ok()).unwrap_or(Value::Null);
                         let mut a: Vec<String> = v["v"]
                             .as_array()
@@ -729,7 +731,6 @@ impl Check {
                         a
                     }
                     Ok(_) => vec!["<process died>".into()],
-                    Err(_) => vec!["<spawn failed>".into()],
                 };
                 seen.push(syms);
             }
@@ -743,6 +744,10 @@ impl Check {
             }
             if process_level && seen[0] != seen[1] {
                 self.machinery_errors.push(format!("non-deterministic process failure at case {}: {:?} / {:?}", first.index, seen[0], seen[1]));
+                continue;
+            }
+            if sym.starts_with("hang:") && seen[0] != vec!["<timeout>".to_string()] {
+                self.machinery_errors.push(format!("hang at case {} did not reproduce in isolation: {:?}", first.index, seen[0]));
                 continue;
             }
             if process_level && seen[0] != vec!["<process died>".to_string()] && !sym.starts_with("hang:") {
@@ -864,6 +869,36 @@ fn absorb(a: &mut Agg, space: &str, arg: &str, v: &Value, len: u64) {
     }
     if is_sample_index(idx, len) && !v["desc"].is_null() && a.samples.len() < 12 {
         a.samples.push(json!({"space": space, "index": idx, "case": v["desc"].clone()}));
+    }
+}
+
+/// run a command to completion with a wall-clock limit; Ok((success, stdout)) or Err("timeout")
+pub fn output_with_timeout(cmd: &mut Command, secs: u64) -> Result<(bool, String), String> {
+    let mut child = cmd.stdin(Stdio::null()).stdout(Stdio::piped()).stderr(Stdio::null()).spawn().map_err(|e| e.to_string())?;
+    let mut stdout = child.stdout.take().unwrap();
+    let reader = std::thread::spawn(move || {
+        let mut s = String::new();
+        let _ = std::io::Read::read_to_string(&mut stdout, &mut s);
+        s
+    });
+    let t0 = Instant::now();
+    loop {
+        match child.try_wait() {
+            Ok(Some(st)) => {
+                let out = reader.join().unwrap_or_default();
+                return Ok((st.success(), out));
+            }
+            Ok(None) => {
+                if t0.elapsed().as_secs() >= secs {
+                    let _ = child.kill();
+                    let _ = child.wait();
+                    let _ = reader.join();
+                    return Err("timeout".into());
+                }
+                std::thread::sleep(Duration::from_millis(20));
+            }
+            Err(e) => return Err(e.to_string()),
+        }
     }
 }
 
